@@ -48,11 +48,12 @@ def spec(case: dict):
 def _recov_cases(rng: random.Random, quick: bool) -> list[dict]:
     cases = []
     # soft failures: only the failing job runs again
-    for n, stage, phase, cnt in [(3, 1, "execute", 1), (4, 2, "transfer", 2), (2, 0, "schedule", 1), (5, 4, "execute", 2)]:
+    for n, stage, phase, cnt in ([(3, 1, "execute", 1), (4, 2, "transfer", 2), (2, 0, "schedule", 1)] if quick else
+                                 [(3, 1, "execute", 1), (4, 2, "transfer", 2), (2, 0, "schedule", 1), (5, 4, "execute", 2)]):
         cases.append({"name": f"soft-pipeline{n}-s{stage}-{phase}x{cnt}", "shape": {"kind": "pipeline", "n": n},
                       "plan": [{"step": f"/s{stage}", "tag": "0", "phase": phase, "kind": "soft", "count": cnt}], "max_retries": 6})
     # fail-stop: the lost producers (and only they) run again
-    for n, stage, lose in [(3, 2, [2]), (3, 2, [2, 1]), (4, 3, [3, 2, 1, 0]), (4, 2, [2, 0])]:
+    for n, stage, lose in ([(3, 2, [2, 1]), (4, 3, [3, 2, 1, 0])] if quick else [(3, 2, [2]), (3, 2, [2, 1]), (4, 3, [3, 2, 1, 0]), (4, 2, [2, 0])]):
         cases.append({"name": f"failstop-pipeline{n}-s{stage}-lose{lose}", "shape": {"kind": "pipeline", "n": n},
                       "plan": [{"step": f"/s{stage}", "tag": "0", "phase": "execute", "kind": "failstop", "count": 1,
                                 "lose": [[f"/s{j}", "0"] for j in lose]}], "max_retries": 6})
@@ -133,7 +134,7 @@ class C18(Property):
     def explore(self, ctx: Ctx) -> None:
         rng = ctx.rng
         quick = ctx.tier == "quick"
-        n = 120 if quick else 1200
+        n = 80 if quick else 1200
         if ctx.mode == "search":
             n *= 3
         corpus = [
@@ -144,7 +145,7 @@ class C18(Property):
         ]
         graphs = corpus + [gen_graph(rng, k) for k in range(n)]
         lines, meta = [], []
-        for status_case in pmap(provk.run_case, graphs, timeout=900, workers=6):
+        for status_case in pmap(provk.run_case, graphs, timeout=300, workers=8):
             case, status, real = status_case
             if status != "ok":
                 ctx.fail("build_graph:" + status, f"graph {case['idx']}: {str(real)[:300]}", {"graph": case})
@@ -189,7 +190,7 @@ class C18(Property):
                 ctx.disagree("build_graph vs model", f"graph {case['idx']}: real `{exp}`, model `{g}`", {"graph": case})
         # ---- end to end -------------------------------------------------------------------------
         rcases = _recov_cases(rng, quick)
-        for case, status, r in pmap(recov.run_case, rcases, timeout=900, workers=6):
+        for case, status, r in recov.run_cases(rcases, timeout=300, workers=6):
             if status != "ok":
                 ctx.fail("run:" + status, f"{case['name']}: {str(r)[:300]}", {"recovery": case})
                 continue
